@@ -1,68 +1,187 @@
-(* Extract/ExC15.v — co-process entry points for the C15 correspondence: parse_connection_path /
-   parse_cip_route and the route encoders of Model/ConnPath.v, plus the Spec parser. *)
+(* Extract/ExC15.v — co-process entry points for the C15 correspondence: the model of
+   parse_connection_path / parse_cip_route / the route encoders (Model/ConnPath.v) AND the
+   independent grammar (Spec/ConnPathGrammar.v: render, reference wire form, reference reader). *)
 From Coq Require Import String.
 From PV Require Import Base.Bytes Base.Proto Base.Res Base.PyStr Gen.PathTables Model.Path Model.ConnPath
-     Spec.EPathParser Extract.ExC09.
+     Spec.ConnPathGrammar.
 From Coq Require Import ExtrOcamlBasic.
 Open Scope string_scope.
 Open Scope Z_scope.
 
-Definition toks_of_segs (segs : list seg) : list tok :=
-  TInt (Z.of_nat (List.length segs)) :: flat_map toks_of_seg segs.
+Definition tbool (b : bool) : tok := TInt (if b then 1 else 0).
+Definition flag (z : Z) : bool := negb (z =? 0).
 
-(* commands:
-     parse <text> <auto>                 -> ok <host text> (none | <int>) <n> <seg>* | err code
+Definition toks_of_plink (l : plink) : list tok :=
+  match l with
+  | LinkInt z => [sym "i"; TInt z]
+  | LinkStr s => [sym "s"; TText s]
+  | LinkBytes b => [sym "b"; TBytes b]
+  end.
+Definition toks_of_mseg (s : seg) : list tok :=
+  match s with
+  | Port (inl n) l => [sym "P"; sym "n"; TInt n] ++ toks_of_plink l
+  | Port (inr n) l => [sym "P"; sym "s"; TText n] ++ toks_of_plink l
+  | _ => [sym "other"]
+  end.
+Definition toks_of_segs (segs : list seg) : list tok :=
+  TInt (Z.of_nat (List.length segs)) :: flat_map toks_of_mseg segs.
+Definition toks_of_bytes_res (r : res (list Z)) : list tok :=
+  match r with
+  | Ok b => [sym "ok"; TBytes b]
+  | Err e => [sym "err"; TInt (exn_code e)]
+  end.
+Definition tok_opt (p : option Z) : tok := match p with Some z => TInt z | None => sym "none" end.
+
+(* ---------------------------------------------------------------- AST <- tokens
+   <ast>   ::= <host text> <tcp | -1> <tcp zeros> <shape>
+   <shape> ::= E <n> <hopsp>*n | S <slot> <sep> <zeros>
+   <hopsp> ::= <port> (s <slot> | a <quad text>) <sep1> (n <zeros> | a <alias text>) <sep2> <link zeros> *)
+Fixpoint hops_of_toks (n : nat) (ts : list tok) : option (list hop * list hop_sp) :=
+  match n with
+  | O => match ts with [] => Some ([], []) | _ => None end
+  | S n' =>
+      match ts with
+      | TInt port :: lk :: lv :: TInt s1 :: pk :: pv :: TInt s2 :: TInt lz :: r =>
+          let l := if is_sym "s" lk then match lv with TInt z => Some (Slot z) | _ => None end
+                   else if is_sym "a" lk then match lv with TText t => Some (Addr t) | _ => None end
+                   else None in
+          let p := if is_sym "n" pk then match pv with TInt z => Some (ByNumber (Z.to_nat z)) | _ => None end
+                   else if is_sym "a" pk then match pv with TText t => Some (ByName t) | _ => None end
+                   else None in
+          match l, p, hops_of_toks n' r with
+          | Some l', Some p', Some (hs, ss) =>
+              Some (mkHop port l' :: hs, mkHopSp s1 p' s2 (Z.to_nat lz) :: ss)
+          | _, _, _ => None
+          end
+      | _ => None
+      end
+  end.
+Definition ast_of_toks (ts : list tok) : option (route_ast * spelling) :=
+  match ts with
+  | TText host :: TInt tcp :: TInt tz :: k :: r =>
+      let t := if tcp <? 0 then None else Some tcp in
+      if is_sym "E" k then
+        match r with
+        | TInt n :: r' =>
+            match hops_of_toks (Z.to_nat n) r' with
+            | Some (hs, ss) => Some (mkRoute host t (Explicit hs), mkSp (Z.to_nat tz) ss SLASH O)
+            | None => None
+            end
+        | _ => None
+        end
+      else if is_sym "S" k then
+        match r with
+        | [TInt slot; TInt sep; TInt z] =>
+            Some (mkRoute host t (SlotOnly slot), mkSp (Z.to_nat tz) [] sep (Z.to_nat z))
+        | _ => None
+        end
+      else None
+  | _ => None
+  end.
+
+Definition rclass_code (c : rclass) : Z :=
+  match c with
+  | OddSegments => 1 | UnknownPortName => 2 | LinkOutOfRange => 3 | BadLink => 4 | BadTcpPort => 5
+  end.
+Definition toks_of_hops_meaning (hs : list hop) : list tok :=
+  [tbool (small_ports hs); tbool (fits hs); TBytes (route_wire false hs); TBytes (route_wire true hs)].
+
+(* commands (model):
+     parse <text> <auto>                 -> ok <host> (none | <int>) <n> <seg>* | err code
+     outcome <text> <auto> <pad_length>  -> ok <host> (none | <int>) x.. | err code
      route <text> <auto>                 -> ok <n> <seg>* | err code          parse_cip_route(str)
-     rbytes <text> <auto> <pad_length>   -> ok x.. | err code                 parse + PADDED_EPATH.encode
      rstr <text>                         -> ok x.. | err code                 generic_message(route_path=str)
      fopen <text> <auto> <pad_length>    -> ok x.. | err code                 route + MSG_ROUTER_PATH
      modinfo <text> <auto> <slot>        -> ok x.. | err code                 get_module_info route
-     parsec <pad_length> <bytes>         -> none | some n <sseg>*             (Spec) *)
+     init <text> <driver 0|1|2>          -> ok <ip> <port> x.. | err code     CIPDriver.__init__ + encode
+   commands (spec):
+     ref <text> <auto>   -> <host> (none | ok p | bad | lenient) (ok small fits x.. x.. | unspec | reject cls)
+     ast <auto> <ast>    -> ok <text> <wf_route> <wf_spelling> (none | some small fits x.. x..) | ERR *)
 Definition handle (ts : list tok) : list tok :=
   match ts with
   | cmd :: TText s :: r =>
       if is_sym "parse" cmd then
         match r with
         | [TInt auto] =>
-            match parse_connection_path s (bool_of auto) with
-            | Ok (h, p, segs) =>
-                [sym "ok"; TText h; match p with Some z => TInt z | None => sym "none" end] ++ toks_of_segs segs
+            match parse_connection_path s (flag auto) with
+            | Ok (h, p, segs) => [sym "ok"; TText h; tok_opt p] ++ toks_of_segs segs
             | Err e => [sym "err"; TInt (exn_code e)]
+            end
+        | _ => [sym "ERR"; sym "badline"]
+        end
+      else if is_sym "outcome" cmd then
+        match r with
+        | [TInt auto; TInt pl] =>
+            match outcome s (flag auto) (flag pl) with
+            | inr (h, p, b) => [sym "ok"; TText h; tok_opt p; TBytes b]
+            | inl e => [sym "err"; TInt (exn_code e)]
             end
         | _ => [sym "ERR"; sym "badline"]
         end
       else if is_sym "route" cmd then
         match r with
         | [TInt auto] =>
-            match parse_cip_route s (bool_of auto) with
+            match parse_cip_route s (flag auto) with
             | Ok segs => sym "ok" :: toks_of_segs segs
             | Err e => [sym "err"; TInt (exn_code e)]
             end
         | _ => [sym "ERR"; sym "badline"]
         end
-      else if is_sym "rbytes" cmd then
-        match r with
-        | [TInt auto; TInt pl] => toks_of_res (route_bytes s (bool_of auto) (bool_of pl))
-        | _ => [sym "ERR"; sym "badline"]
-        end
-      else if is_sym "rstr" cmd then toks_of_res (route_bytes_of_route_string s)
+      else if is_sym "rstr" cmd then toks_of_bytes_res (route_bytes_of_route_string s)
       else if is_sym "fopen" cmd then
         match r with
         | [TInt auto; TInt pl] =>
-            toks_of_res (let* (_, segs) := parse_connection_path s (bool_of auto) in
-                         forward_open_path segs (bool_of pl))
+            toks_of_bytes_res (let* (_, segs) := parse_connection_path s (flag auto) in
+                               forward_open_path segs (flag pl))
         | _ => [sym "ERR"; sym "badline"]
         end
       else if is_sym "modinfo" cmd then
         match r with
         | [TInt auto; TInt slot] =>
-            toks_of_res (let* (_, segs) := parse_connection_path s (bool_of auto) in
-                         module_info_path segs slot)
+            toks_of_bytes_res (let* (_, segs) := parse_connection_path s (flag auto) in
+                               module_info_path segs slot)
+        | _ => [sym "ERR"; sym "badline"]
+        end
+      else if is_sym "init" cmd then
+        match r with
+        | [TInt d] =>
+            let drv := if d =? 0 then CIPDriver else if d =? 1 then LogixDriver else SLCDriver in
+            match driver_init drv s with
+            | Ok c => [sym "ok"; TText (cfg_ip c); TInt (cfg_port c)] ++ toks_of_bytes_res (encode_route (cfg_cip_path c) true)
+            | Err e => [sym "err"; TInt (exn_code e)]
+            end
+        | _ => [sym "ERR"; sym "badline"]
+        end
+      else if is_sym "ref" cmd then
+        match r with
+        | [TInt auto] =>
+            let v := ref_parse (flag auto) s in
+            [TText (v_host v)]
+            ++ (match v_tcp v with
+                | TcpNone => [sym "none"]
+                | TcpOk p => [sym "ok"; TInt p]
+                | TcpBad => [sym "bad"]
+                | TcpLenient => [sym "lenient"]
+                end)
+            ++ (match v_route v with
+                | RouteOk hs => sym "ok" :: toks_of_hops_meaning hs
+                | RouteUnspec => [sym "unspec"]
+                | RouteReject c => [sym "reject"; TInt (rclass_code c)]
+                end)
         | _ => [sym "ERR"; sym "badline"]
         end
       else [sym "ERR"; sym "badcmd"]
-  | [cmd; TInt pl; TBytes b] =>
-      if is_sym "parsec" cmd then toks_of_parse (parse_counted (bool_of pl) b)
+  | cmd :: TInt auto :: r =>
+      if is_sym "ast" cmd then
+        match ast_of_toks r with
+        | Some (a, sp) =>
+            [sym "ok"; TText (render sp a); tbool (wf_route a); tbool (wf_spelling sp a)]
+            ++ match hops_of (flag auto) (r_shape a) with
+               | Some hs => sym "some" :: toks_of_hops_meaning hs
+               | None => [sym "none"]
+               end
+        | None => [sym "ERR"; sym "badast"]
+        end
       else [sym "ERR"; sym "badcmd"]
   | _ => [sym "ERR"; sym "badline"]
   end.
